@@ -121,6 +121,15 @@ func installMask() *maskSource {
 	return maskSrc
 }
 
+// rewindMask restarts the key stream (called at the start of every program so
+// that the 1 MiB stream never wraps inside a program).
+func rewindMask() {
+	m := installMask()
+	m.mu.Lock()
+	m.pos = 0
+	m.mu.Unlock()
+}
+
 // ---- instrumented pool -----------------------------------------------------
 
 type poolRec struct {
@@ -441,6 +450,7 @@ func payFor(seed uint64, id, typ, n int) []byte {
 // RunWriter executes one writer program (or, with AllK, one run per fault
 // point) and returns the trace events.
 func RunWriter(p *WProg) (evs []Ev) {
+	rewindMask()
 	if !p.AllK {
 		evs, _ = runWriterOnce(p, p.Fault, p.ID)
 		return evs
@@ -762,7 +772,7 @@ func dlOr(s string) string {
 // one buffer pool and one set of prepared messages (C11, C19 concurrent
 // variants). Every connection yields its own single-connection writer trace.
 func RunShare(p *WProg) (evs []Ev) {
-	installMask()
+	rewindMask()
 	g := &shareGroup{byGid: map[int64]*writerRun{}}
 	g.pool = &poolRec{ids: map[uintptr]int{}, emit: g.route}
 	for i, m := range p.PMs {
